@@ -37,7 +37,7 @@ EXPLANATION = (
     '(get_data_types_for_namespace) and skips a namespace only when that list is empty; '
     'tsd_client emits one method per route of every namespace. Decides these structural parts.'
     " R5 (generator totality, stonelint.totality): every read of a class-specific IR attribute in the six modules is defined for every class that can reach it, every raise/assert is an unreachable dispatch default, a doc-tag default covering the frontend's tags, a configuration condition or a recorded precondition, and class-keyed table lookups are total."
-    ' RC (call-condition drift, stonelint.conddrift.run_calls): for every call of a repository or imported-library function in the functions the property is anchored in, the path conditions of its occurrences are compared with reference/conditions.json by truth table; an assignment under which the function used to make the call and now completes without it is a violation (tests on memo tables, emptiness of the iterated collection and earlier refusals excepted; re-spelled conditions are not claimed).'
+    ' RC (call-condition drift, stonelint.effects.run_calls): for every call of a repository or imported-library function in the functions the property is anchored in, the path conditions of its occurrences are compared with reference/effects.json by truth table; an assignment under which the function used to make the call and now completes without it is a violation (tests on memo tables, emptiness of the iterated collection and earlier refusals excepted; re-spelled conditions are not claimed).'
     ' MK (memo-key rule, stonelint.memo): a memo table or done-set the reference tree does not have must be keyed by every access path the skipped code reads, injectively and type-aware.')
 ASSUMPTIONS = ['repr() of a str and json.dumps of a number/bool/null are valid JavaScript literals']
 PRIMS = {'Boolean', 'Bytes', 'Float32', 'Float64', 'Int32', 'Int64', 'UInt32', 'UInt64', 'String',
@@ -153,7 +153,7 @@ def run(pm, ctx):
     fn = sorted((unparse(leaf), tuple((unparse(e), p) for e, p in pits.at(leaf)
                                       if unparse(e) == 'optional'))
                 for leaf, _st in assigned_alternatives(ts.node, 'field_name'))
-    ctx.check('C16-R2', ok and fn == [("'%s?' % field.name", (('optional', True),)),
+    ctx.check('C16-R2', ok and fn == [("'{}?'.format(field.name)", (('optional', True),)),
                                       ('field.name', (('optional', False),))] and
               [unparse(v) for kind, v, s in d.values.get('field_type', [])] ==
               ['unwrap_nullable(field.data_type)'],
@@ -162,7 +162,7 @@ def run(pm, ctx):
                   [unparse(o) for o in opt], fn), key='C16-R2|%s|optional' % ts.qualname)
     flds = [unparse(l.iter) for l in own_nodes(ts.node) if isinstance(l, ast.For) and
             'fields' in unparse(l.iter)]
-    ctx.check('C16-R2', flds == ['struct_type.fields'] and 'extends %s' in ' '.join(
+    ctx.check('C16-R2', flds == ['struct_type.fields'] and 'extends {}' in ' '.join(
         unparse(n) for n in own_nodes(ts.node) if isinstance(n, ast.Assign)),
         'TypeScript interface declares own fields and extends the parent interface', ts.loc,
         msg='TypeScript struct field source changed: %s' % flds,
@@ -271,7 +271,7 @@ def run(pm, ctx):
     dt = defs(tr.node)
     ctx.check('C16-R3', [unparse(v) for v in dt.all_values('function_name')] ==
               ["fmt_func(namespace.name + '_' + route.name, route.version)"] and
-              "'arg: %s' % fmt_type(route.arg_data_type)" in [unparse(v) for v in
+              "'arg: {}'.format(fmt_type(route.arg_data_type))" in [unparse(v) for v in
                                                               dt.all_values('arg')] and
               all('fmt_type(route.result_data_type)' in unparse(v)
                   for v in dt.all_values('return_type') if not isinstance(v, ast.Constant)),
@@ -391,12 +391,12 @@ def run(pm, ctx):
                      'aliases or annotation types (shared with C09-R4)', only=lambda o:
                      'get_imported_namespaces' in o['instance'] or 'ApiNamespace' in o['where'])
 
-    from ..conddrift import run_decisions
+    from ..effects import run_decisions
     from ..ownership import OWN
     run_decisions(pm, ctx, 'C16-RD', OWN['C16'])
     from .. import exprdrift
     exprdrift.run(pm, ctx, 'C16-RE', OWN['C16'])
-    from ..conddrift import run_calls
+    from ..effects import run_calls
     run_calls(pm, ctx, 'C16-RC', OWN['C16'])
     from .. import memo
     memo.run(pm, ctx, 'C16-MK', OWN['C16'])
